@@ -31,17 +31,20 @@ def run(ctx):
                 # growth beyond the listed quantifier: forked PROCESSES on the process-shared cache (shared sequence counter)
                 (4, 400, 2, 4, 2, "proc"), (3, 400, 0, 2, 2, "proc"),
                 # all keys in ONE hash bucket (equal hash values): readers walk / touch the same chain
-                (6, 1500, 0, 5, 2, "collide"), (4, 800, 3, 5, 2, "collide")]
+                (6, 1500, 0, 5, 2, "collide"), (4, 800, 3, 5, 2, "collide"),
+                # writers that stop early: readers parked behind the last writer must all get through
+                (8, 1500, 0, 3, 6, "onewriter"), (4, 1500, 2, 3, 4, "onewriter"), (3, 2000, 0, 2, 4, "onewriter")]
     else:
         runs = [(t, n, lim, names, 3) for t in (2, 3, 4, 8) for (n, lim, names) in ((4000, 0, 3), (3000, 2, 4), (3000, 1, 2), (3000, 4, 8))]
         runs += [(t, 1500, lim, names, 3, "proc") for t in (2, 4, 8) for (lim, names) in ((0, 3), (2, 4), (1, 2))]
         runs += [(t, 4000, lim, 5, 3, "collide") for t in (2, 4, 8) for lim in (0, 3, 64)]
+        runs += [(t, 3000, lim, 3, 12, "onewriter") for t in (3, 4, 8) for lim in (0, 2)]
     n = 0
     for spec in runs:
         n += 1
         raw = os.path.join(ctx.work, "c09-%d.raw" % n)
         srt = os.path.join(ctx.work, "c09-%d.ndjson" % n)
-        henv = {"VERIF_COLLIDE": "1"} if spec[-1] == "collide" else None
+        henv = {"VERIF_COLLIDE": "1"} if spec[-1] == "collide" else ({"VERIF_ONEWRITER": "1"} if spec[-1] == "onewriter" else None)
         if henv:
             spec = spec[:-1]
         rc, out, err = ctx.run_harness(exe, spec, trace=raw, timeout=600, env=henv)
